@@ -56,6 +56,8 @@ class NpRandom:
 
     def randint(self, low, high=None):
         e = S.engine()
+        if not S.is_sym(low) and not S.is_sym(high) and low >= high:
+            raise ValueError('low >= high')        # what numpy does
         v = e.fresh_int('len')
         e.assume((v >= low) & (v < high))
         self.rec.randint_calls.append((low, high, v))
